@@ -2,6 +2,7 @@
 use crate::engine::Ctx;
 use serde_json::Value;
 
+pub mod c01;
 pub mod c02;
 
 pub struct Prop {
@@ -12,6 +13,7 @@ pub struct Prop {
 
 pub fn registry() -> Vec<Prop> {
     vec![
+        Prop { id: "C01", run: c01::run, replay: c01::replay },
         Prop { id: "C02", run: c02::run, replay: c02::replay },
     ]
 }
